@@ -14,6 +14,7 @@ type CG struct {
 	named    []*types.Named // istio named non-interface types
 	implMemo map[string][]*ssa.Function
 	calleeMemo map[*ssa.Function][]*ssa.Function
+	fieldFuncs map[*types.Var][]*ssa.Function
 }
 
 func (p *Prog) CG() *CG {
@@ -158,8 +159,53 @@ func (g *CG) blockCallees(b *ssa.BasicBlock, set map[*ssa.Function]bool) {
 			}
 		} else if f := cc.StaticCallee(); f != nil {
 			add(f)
+		} else if fv := fieldOfLoad(cc.Value); fv != nil {
+			// call through a function-valued struct field: every function stored into that field anywhere in istio
+			for _, f := range g.funcsStoredTo(fv) {
+				add(f)
+			}
 		}
 	}
+}
+
+// funcsStoredTo: field-based resolution of function-valued struct fields (composite literals and assignments).
+func (g *CG) funcsStoredTo(fv *types.Var) []*ssa.Function {
+	if g.fieldFuncs == nil {
+		g.fieldFuncs = map[*types.Var][]*ssa.Function{}
+		for _, fn := range g.p.AllFuncs {
+			for _, b := range fn.Blocks {
+				for _, ins := range b.Instrs {
+					st, ok := ins.(*ssa.Store)
+					if !ok {
+						continue
+					}
+					fa, ok := st.Addr.(*ssa.FieldAddr)
+					if !ok {
+						continue
+					}
+					if _, isSig := st.Val.Type().Underlying().(*types.Signature); !isSig {
+						continue
+					}
+					v := st.Val
+					if ct, ok := v.(*ssa.ChangeType); ok {
+						v = ct.X
+					}
+					var f *ssa.Function
+					switch x := v.(type) {
+					case *ssa.Function:
+						f = x
+					case *ssa.MakeClosure:
+						f, _ = x.Fn.(*ssa.Function)
+					}
+					if f != nil {
+						k := fieldVar(fa.X.Type(), fa.Field)
+						g.fieldFuncs[k] = append(g.fieldFuncs[k], f)
+					}
+				}
+			}
+		}
+	}
+	return g.fieldFuncs[fv]
 }
 
 // ReachLive is Reach with per-function block liveness: live(f) returns the set of live blocks of f, or nil for all.
